@@ -12,6 +12,7 @@ import CbiVerif.Drv.ArgvFull
 import CbiVerif.Drv.C01
 import CbiVerif.Drv.CLex
 import CbiVerif.Drv.Compilers
+import CbiVerif.Drv.Regex
 import CbiVerif.Drv.Eval
 import CbiVerif.Drv.EvalLayout
 import CbiVerif.Drv.CodeBase
@@ -39,6 +40,7 @@ def handlerTable : List (String × (Json → Json)) :=
   CbiVerif.Drv.C01.handlers ++
   CbiVerif.Drv.CLex.handlers ++
   CbiVerif.Drv.Compilers.handlers ++
+  CbiVerif.Drv.Regex.handlers ++
   CbiVerif.Drv.Eval.handlers ++
   CbiVerif.Drv.EvalLayout.handlers ++
   CbiVerif.Drv.CodeBase.handlers ++
